@@ -350,7 +350,30 @@ def fam_multi(tier: str) -> Iterator[Tuple[str, Program]]:
                 yield ("multi", Program(children=kids))
 
 
-FAMILIES = (fam_prec, fam_bool, fam_nest, fam_expr, fam_multi)
+def fam_choice(tier: str) -> Iterator[Tuple[str, Program]]:
+    """selection precedence: visible user pick > first `default` whose condition holds AND whose member is visible > first
+    visible member; an option outside follows the members"""
+    for vis in ("plain", "depends", "prompt_if"):
+        for dk in ("none", "m2", "m2_if_b", "m2_then_m3", "m3_if_b_then_m2", "m2_if_b_then_m1"):
+            m2 = Cfg("M2", "bool", prompt="m2")
+            if vis == "depends":
+                m2.depends.append(S("A"))
+            elif vis == "prompt_if":
+                m2.prompt_cond = S("A")
+            defaults = {"none": [], "m2": [("M2", None)], "m2_if_b": [("M2", S("B"))], "m2_then_m3": [("M2", None), ("M3", None)],
+                        "m3_if_b_then_m2": [("M3", S("B")), ("M2", None)], "m2_if_b_then_m1": [("M2", S("B")), ("M1", None)]}[dk]
+            ch = Choice(prompt="c", defaults=defaults, children=[Cfg("M1", "bool", prompt="m1"), m2, Cfg("M3", "bool", prompt="m3")])
+            kids: List[Any] = []
+            if vis != "plain":
+                kids.append(aux("A"))
+            if "b" in dk:
+                kids.append(aux("B"))
+            kids.append(ch)
+            kids.append(Cfg("LVL", "int", prompt="lvl", defaults=[(L("3"), S("M2")), (L("2"), S("M3")), (L("1"), None)]))
+            yield ("choice", Program(children=kids))
+
+
+FAMILIES = (fam_prec, fam_bool, fam_nest, fam_expr, fam_multi, fam_choice)
 
 EXPR_DOM = {"A": ["n", "y"], "B": ["n", "y"], "N": [None, "3", "7"], "S": [None, "v1", "3"], "S2": [None, "a b"], "H": [None, "0x5", "1f"], "P": [None, "y"]}
 
@@ -374,7 +397,11 @@ def domains(fam: str, model: refsem.Model) -> List[Tuple[str, List[Optional[str]
         si = model.syms[n]
         if not any(d.prompt is not None for d in si.defs):
             continue  # promptless: user values have no effect by definition; covered by C08/C02
-        if fam == "expr":
+        if fam == "choice" and si.choice is not None:
+            out.append((n, [None, "y"]))  # picks; what setting a member to n means is C05's subject
+        elif fam == "choice" and si.type == "int":
+            out.append((n, [None, "7"]))
+        elif fam == "expr":
             out.append((n, EXPR_DOM[n]))
         else:
             out.append((n, DOM[si.type]))
@@ -471,6 +498,11 @@ def check_program(fam: str, files, prog: Program, r: common.Result, only_assign=
     results: Dict[tuple, tuple] = {}
     ptext = files["Kconfig"]
     assigns = [only_assign] if only_assign is not None else list(itertools.product(*[d for _, d in doms]))
+    if fam == "choice" and only_assign is None:
+        # at most ONE member assigned per configuration: which member is "the user's pick" after several assignments (the
+        # last one, even if it is hidden at that moment) is what C05 states and explores
+        members = [i for i, n in enumerate(names) if model.syms[n].choice is not None]
+        assigns = [a for a in assigns if sum(1 for i in members if a[i] == "y") <= 1]
     for assign in assigns:
         assign = tuple(assign)
         try:
